@@ -200,7 +200,7 @@ func runSchedule(cfg []ldefT, prog [][]opT, pick policy) *runResult {
 			return -1, -1
 		}
 		o := prog[t.id][idx]
-		return w.fileLevel(o.L, o.N), o.N
+		return w.fileLevel(o.L, o.N, o.S), o.N
 	}
 	// bookkeeping for the known-finding matcher: which operations ran (a segment) while another goroutine was
 	// instantiating the same (loader, name)
